@@ -19,6 +19,8 @@ pub struct H {
     /// when set, unrelated calls into other parts of the library are made before every recorded call (util::noise)
     pub noisy: bool,
     noise_ctr: usize,
+    /// the proof the server said it expected, from the last refused into_server
+    pub last_expected: Option<[u8; 20]>,
 }
 
 /// every other string handed to the library is a CLONE of the constructed one (a clone is an equal, independent value)
@@ -46,7 +48,7 @@ fn ns0(s: &str) -> NormalizedString {
 
 impl H {
     pub fn new(tr: Tr) -> H {
-        H { tr, next: 1, honest: false, det: None, noisy: false, noise_ctr: 0 }
+        H { tr, next: 1, honest: false, det: None, noisy: false, noise_ctr: 0, last_expected: None }
     }
     fn maybe_noise(&mut self) {
         if self.noisy {
@@ -230,6 +232,7 @@ impl H {
             }
             Ok(Err(err)) => {
                 e["res"] = json!({"kind": "err", "client": b(&err.client_proof), "server": b(&err.server_proof), "display": b(err.to_string().as_bytes())});
+                self.last_expected = Some(err.server_proof);
                 self.tr.ev(e);
                 self.drop_event(consumed);
                 None
